@@ -219,6 +219,11 @@ def _drive(ctx, binary, scripts, timeout=2400):
             crashes.setdefault(c["sid"], []).append(crash)
             skip |= _same_request_labels(scripts, st["act"], a, at["via"])
             ctx.extra.setdefault("crashes", []).append({"script": c["sid"], "step": at["step"], "via": at["via"], "rpc": st["act"], "k": a.get("k"), "p": a.get("p")})
+        if not attributed and crashes:
+            # earlier deaths were attributed (they are reported); this one does not reproduce in isolation
+            ctx.extra["incomplete"] = "a driver death could not be attributed (in flight: %s); %d scripts not executed" % (
+                [p["what"] for p in prog], len([s for s in todo if s["id"] not in blocks]))
+            break
         if not attributed:
             raise vf.Infra("driver died and the death could not be attributed to a call (in flight: %s):\n%s" % (prog, _panic_text(out) or "\n".join(out.splitlines()[-30:])))
         todo = [s for s in todo if s["id"] not in blocks]
